@@ -163,7 +163,13 @@ def oracle(case, ref, im, res, img, res_swap):
     err = [abs(circ(res[0] + s[0], M)), abs(circ(res[1] + s[1], N))]
     case["_err_up"] = max(err) * case["up"]
     ident = (s[0] == 0 and s[1] == 0)
-    if max(err) > tol:
+    if max(err) > tol and case.get("ms_kind") == "tight":
+        bad.append(("%s-max-shift-neighbour-masked" % cls,
+                    "max_shift=%r admits the applied translation %s (coarse-peak radius %.4g) but the returned "
+                    "shift %s is not the expected %s within %.3g (shape %s, upsample_factor %d)"
+                    % (case.get("ms"), s, admit_radius(case), res, [circ(-s[0], M), circ(-s[1], N)], tol,
+                       (M, N), case["up"])))
+    elif max(err) > tol:
         if ident:
             bad.append(("%s-identical-nonzero" % cls,
                         "identical images (shape %s, upsample_factor %d) give shift %s instead of (0, 0)"
@@ -177,7 +183,7 @@ def oracle(case, ref, im, res, img, res_swap):
             bad.append(("%s-subpixel-outside-one-upsampled-pixel" % cls,
                         "sub-pixel translation %s (shape %s, upsample_factor %d): returned %s, expected %s "
                         "within %.4g" % (s, (M, N), case["up"], res, [circ(-s[0], M), circ(-s[1], N)], tol)))
-    rng_tol = 1e-9
+    rng_tol = 1e-6 if case["est"] == "numpy" else 1e-3
     if not (-M / 2 - rng_tol <= res[0] <= M / 2 + rng_tol and -N / 2 - rng_tol <= res[1] <= N / 2 + rng_tol):
         bad.append(("%s-not-centred" % cls, "returned shift %s outside [-n/2, n/2) for shape %s" % (res, (M, N))))
     # sign convention, evaluated directly: translate the second image by the returned shift
@@ -229,6 +235,32 @@ def oracle(case, ref, im, res, img, res_swap):
 
 
 # --------------------------------------------------------------------------- case generation
+def admit_radius(case) -> float:
+    """radius of the farthest correlation pixel that can be the coarse peak of this case (the
+    pixel(s) nearest to the true offset -shift): a max_shift above it admits the applied shift;
+    the property says nothing about masks that exclude the peak"""
+    M, N = case["M"], case["N"]
+    ox, oy = circ(-case["shift"][0], M), circ(-case["shift"][1], N)
+    cand = []
+    for px in {math.floor(ox), math.ceil(ox)}:
+        for py in {math.floor(oy), math.ceil(oy)}:
+            cand.append(math.hypot(circ(px, M), circ(py, N)))
+    return max(cand)
+
+
+def pick_max_shift(r, case) -> float:
+    """max_shift settings that admit the applied shift: TIGHT ones (the peak is admitted, one or
+    more of the parabola's neighbours are masked) and roomy ones"""
+    rad = admit_radius(case)
+    kind = r.choice(["tight", "tight", "room", "room", "huge"])
+    case["ms_kind"] = kind
+    if kind == "tight":
+        return rad + r.choice([0.05, 0.2, 0.5, 0.9])
+    if kind == "room":
+        return r.choice([rad + 2.5, rad + 2.5 + r.random() * 5, float(math.ceil(rad + 3))])
+    return 64.0
+
+
 def gen_cases(ctx: Ctx):
     r = ctx.rng
     cases = []
@@ -241,6 +273,10 @@ def gen_cases(ctx: Ctx):
         if kind == "half-size":
             return [float(M // 2), float(r.randint(0, N - 1))] if r.random() < 0.5 else \
                 [float(r.randint(0, M - 1)), float((N + 1) // 2)]
+        if kind == "wrap":
+            # offset -shift in [n/2 - 1, n/2 + 1): around the seam of the centred cell [-n/2, n/2)
+            return [-(M / 2.0 + r.choice([-0.75, -0.25, 0.0, 0.125, 0.25, 0.375, 0.75])),
+                    -(N / 2.0 + r.choice([-0.75, -0.25, 0.0, 0.125, 0.25, 0.375, 0.75]))]
         den = r.choice([2, 4, 8, 16, 64])
         return [r.randint(-M * den, M * den) / den, r.randint(-N * den, N * den) / den]
 
@@ -254,8 +290,17 @@ def gen_cases(ctx: Ctx):
     # every (estimator, upsampling factor, shift kind) at least twice, then a random stream
     for est in ("numpy", "torch"):
         for up in UPS:
-            for kind in ("zero", "int", "int", "half-size", "sub", "sub"):
+            for kind in ("zero", "int", "int", "half-size", "sub", "sub", "wrap"):
                 cases.append(one(est, kind, up))
+            cases.append(one(est, "wrap", up, r.choice([(9, 9), (15, 20), (21, 13), (17, 17)])))
+    # max_shift that admits the applied shift but masks a neighbour of the peak, every factor
+    for up in UPS:
+        for kind in ("int", "sub", "zero"):
+            c = one("numpy", kind, up)
+            c["ms"] = admit_radius(c) + r.choice([0.05, 0.3, 0.9])
+            c["ms_kind"] = "tight"
+            c["rsi"] = kind == "int"
+            cases.append(c)
     # identical images, every shape and factor (cheap; this clause is quantified over every factor)
     for shape in SHAPES:
         for up in UPS:
@@ -265,21 +310,15 @@ def gen_cases(ctx: Ctx):
     n = ctx.budget(260, 6000)
     for _ in range(n):
         est = r.choice(["numpy", "numpy", "torch"])
-        kind = r.choice(["int", "int", "sub", "sub", "sub", "half-size", "zero"])
+        kind = r.choice(["int", "int", "sub", "sub", "sub", "half-size", "zero", "wrap"])
         up = r.choice(UPS)
         c = one(est, kind, up)
         if est == "numpy":
             c["fft_in"] = r.random() < 0.4
             c["rsi"] = r.random() < 0.6
             c["fft_out"] = c["rsi"] and r.random() < 0.5
-            if r.random() < 0.3:
-                # max_shift: only settings that admit the true shift (with room for the parabola's
-                # neighbours); the property says nothing about masks that exclude the peak
-                M, N = c["M"], c["N"]
-                rad = math.hypot(circ(-c["shift"][0], M), circ(-c["shift"][1], N))
-                c["ms"] = r.choice([rad + 2.5, rad + 2.5 + r.random() * 5, float(math.ceil(rad + 3)), 32])
-                if c["ms"] < rad + 2.5:
-                    c["ms"] = rad + 2.5
+            if r.random() < 0.4:
+                c["ms"] = pick_max_shift(r, c)
         else:
             c["mode"] = r.choice(["real", "real", "fourier"])
             c["dtype"] = "float32" if r.random() < 0.15 else "float64"
@@ -319,7 +358,7 @@ def check_oracle(ctx: Ctx):
             ctx.dist("oracle/numpy-io/%s%s%s%s" % ("F" if case.get("fft_in") else "r",
                                                     "+img" if case.get("rsi") else "",
                                                     "(F)" if case.get("fft_out") else "",
-                                                    "+max_shift" if case.get("ms") else ""))
+                                                    ("+max_shift-" + case.get("ms_kind", "room")) if case.get("ms") else ""))
         else:
             ctx.dist("oracle/torch-io/%s/%s" % (case.get("mode", "real"), case.get("dtype", "float64")))
         beyond = abs(case["shift"][0]) > case["M"] / 2 or abs(case["shift"][1]) > case["N"] / 2
@@ -472,18 +511,36 @@ def gen_corr_cases(ctx: Ctx):
         elif kind == "zero":
             s = [0.0, 0.0]
         else:
+            # dyadic sub-pixel shifts, but not exact half-pixels: there two correlation pixels tie
+            # (to rounding) and which one a first-maximum argmax picks is not determined by the
+            # exact model (the oracle stream does include them)
             den = r.choice([4, 8, 16])
-            s = [r.randint(-M * den, M * den) / den, r.randint(-N * den, N * den) / den]
+
+            def draw(n):
+                while True:
+                    k = r.randint(-n * den, n * den)
+                    if (2 * k) % den != 0:
+                        return k / den
+            s = [draw(M), draw(N)]
         c = {"est": est, "img": img, "seed": r.randrange(1 << 30), "M": M, "N": N, "up": up, "shift": s, "kind": kind}
         if ms:
-            rad = math.hypot(circ(-s[0], M), circ(-s[1], N))
-            c["ms"] = float(math.floor(rad + 3)) + r.choice([0.0, 0.5])
+            rad = admit_radius(c)
+            if r.random() < 0.5:
+                c["ms"] = float(math.floor(rad + 3)) + r.choice([0.0, 0.5])
+            else:   # tight: admits the peak, masks neighbours (dyadic, so exact in the model)
+                c["ms"] = math.floor((rad + r.choice([0.0625, 0.25, 0.75])) * 1024 + 1) / 1024.0
+                c["ms_kind"] = "tight"
         cases.append(c)
 
     for est in ("numpy", "torch"):
         for up in ups_val + ([16] if not ctx.quick else []):
             for kind in ("zero", "int", "int", "sub"):
                 add(est, "int" if kind != "sub" else "bl", kind, up)
+    for up in (1, 2, 4):
+        for kind in ("int", "sub"):
+            add("numpy", "bl", kind, up, ms=True)
+            cases[-1]["ms"] = math.floor((admit_radius(cases[-1]) + 0.25) * 1024 + 1) / 1024.0
+            cases[-1]["ms_kind"] = "tight"
     for _ in range(ctx.budget(40, 600)):
         est = r.choice(["numpy", "torch"])
         kind = r.choice(["int", "int", "sub", "sub", "zero"])
@@ -594,6 +651,12 @@ def check_correspondence(ctx: Ctx):
             tol = TOL_MODEL if case["est"] == "numpy" else TOL_EXACT_T
             if not all(math.isfinite(x) for x in res) or max(abs(circ(mres[0] - res[0], M)), abs(circ(mres[1] - res[1], N))) > tol:
                 problems.append("returned shift: impl %s model %s" % (res, mres))
+            else:
+                # the representative in [-n/2, n/2) too (C13_centre_wrap), away from the seam where
+                # float rounding may legitimately pick the other end
+                for ax, n in ((0, M), (1, N)):
+                    if abs(abs(mres[ax]) - n / 2.0) > 1e-3 and abs(mres[ax] - res[ax]) > tol:
+                        problems.append("centred representative, axis %d: impl %r model %r" % (ax, res[ax], mres[ax]))
         ctx.cov["traces_validated_against_impl"] += 1
         ctx.dist("corr/%s/%s/%s" % (up_class(case), case["kind"], case["img"]))
         ctx.count(("corr", json.dumps(public(case), sort_keys=True)), nontrivial=case["kind"] != "zero" or up > 1)
